@@ -17,11 +17,14 @@ From TR Require Import Lib.Base.
 (* ------------------------------------------------------------------------- *)
 (* Part 1a: atomic memory. Each location is sequentially consistent by itself
    (all orderings in the code are Relaxed on single locations). *)
-Inductive loc := LTok | LLim | LMin | LSm | LCnt.
+(* LTok: a budget's tokens; LLim: the limit of an AimdController / of Vegas; LMin, LSm, LCnt:
+   Vegas' min_rtt, smoothed_rtt, sample_count; LInf, LCur: AdaptiveService's in_flight counter
+   and its current_limit bookkeeping cell (Model/Adaptive.v) *)
+Inductive loc := LTok | LLim | LMin | LSm | LCnt | LInf | LCur.
 
 Definition loc_eqb (a b : loc) : bool :=
   match a, b with
-  | LTok, LTok | LLim, LLim | LMin, LMin | LSm, LSm | LCnt, LCnt => true
+  | LTok, LTok | LLim, LLim | LMin, LMin | LSm, LSm | LCnt, LCnt | LInf, LInf | LCur, LCur => true
   | _, _ => false
   end.
 
@@ -266,7 +269,18 @@ Definition tb_next (pc : tb_pc) (v : Z) (ok : bool) : tb_pc + Z :=
 Definition tb_prog (maxs : Z) : prog tb_pc tb_call :=
   {| p_start := tb_start; p_op := tb_op maxs; p_next := tb_next |}.
 
-Definition tb_mem (initial : Z) : mem := fun l => match l with LTok => initial * SCALE | _ => 0 end.
+(* memory of a token bucket whose (scaled) balance is [init0] *)
+Definition tb_mem0 (init0 : Z) : mem := fun l => match l with LTok => init0 | _ => 0 end.
+(* the unclamped, unsaturated start used by the step-level examples: initial * 1000 *)
+Definition tb_mem (initial : Z) : mem := tb_mem0 (initial * SCALE).
+
+(* TokenBucketBudget::new(_, max_tokens, initial_tokens) (budget.rs, /repo a863e6a):
+     max_tokens = (max_tokens as u64).saturating_mul(1000)
+     tokens     = (initial_tokens as u64).saturating_mul(1000).min(max_tokens) *)
+Definition tb_maxs (maxt : Z) : Z := sat_mul maxt SCALE.
+Definition tb_init (maxt initial : Z) : Z := Z.min (sat_mul initial SCALE) (tb_maxs maxt).
+Definition tb_new_prog (maxt : Z) : prog tb_pc tb_call := tb_prog (tb_maxs maxt).
+Definition tb_new_mem (maxt initial : Z) : mem := tb_mem0 (tb_init maxt initial).
 
 (* ---- the token bucket as it was on the pinned tree: deposit = load; store ---- *)
 Inductive tbp_pc := PwLoad | PwCas (cur : Z) | PdLoad | PdStore (new : Z) | PbLoad.
@@ -397,6 +411,28 @@ Fixpoint seq_run {C : Type} (f : Z -> C -> Z * Z) (bal : Z) (cs : list C) : list
       (r :: rs, bf)
   end.
 
+(* the token balance of the AIMD budget as a sequential object. The ceiling a deposit is
+   capped at is not part of this object: a deposit reads it in an earlier atomic step, and the
+   controller may move it meanwhile, so the sequential deposit may cap at ANY ceiling within
+   [min_budget, max_budget] (the composite deposit = read ceiling; add tokens; raise ceiling is
+   three atomic actions by design).  [ab_seq_step b bal call ret bal'] *)
+Inductive ab_seq_step (b : bcfg) : Z -> ab_call -> Z -> Z -> Prop :=
+| SW0 bal : bal < b_w b -> ab_seq_step b bal AbWithdraw 0 bal
+| SW1 bal : b_w b <= bal -> ab_seq_step b bal AbWithdraw 1 (bal - b_w b)
+| SD bal ceil : a_min (b_ctl b) <= ceil <= a_max (b_ctl b) ->
+                ab_seq_step b bal AbDeposit 2 (ab_dep b ceil bal)
+| SB bal : ab_seq_step b bal AbBalance bal bal.
+
+Inductive ab_seq_run (b : bcfg) : Z -> list (ab_call * Z) -> Z -> Prop :=
+| SRnil bal : ab_seq_run b bal [] bal
+| SRcons bal c r bal' t bal'' :
+    ab_seq_step b bal c r bal' -> ab_seq_run b bal' t bal'' ->
+    ab_seq_run b bal ((c, r) :: t) bal''.
+
+(* operations on the token balance (current_max() only reads the controller) *)
+Definition tok_op (r : orec ab_call) : bool :=
+  match r_call r with AbMax => false | _ => true end.
+
 (* counters over the log of completed operations *)
 Fixpoint countz {A : Type} (p : A -> bool) (l : list A) : Z :=
   match l with [] => 0 | x :: t => b2z (p x) + countz p t end.
@@ -467,17 +503,29 @@ Definition tb_decode (c : Z * Z) : tb_call :=
 Definition ab_decode (c : Z * Z) : ab_call :=
   if fst c =? 0 then AbWithdraw else if fst c =? 1 then AbDeposit
   else if fst c =? 3 then AbMax else AbBalance.
+(* through Arc<dyn RetryBudget> there is no current_max(): code 3 reads the balance *)
+Definition abd_decode (c : Z * Z) : ab_call :=
+  if fst c =? 0 then AbWithdraw else if fst c =? 1 then AbDeposit else AbBalance.
 
+(* kinds 0 / 1: TokenBucketBudget::new / AimdBudget::new; kinds 2 / 3: the same budgets built
+   by RetryBudgetBuilder (token bucket: p2 = 1 means initial_tokens is not set and defaults to
+   max_tokens) and used through Arc<dyn RetryBudget> *)
 Definition run_script (s : list Z) : list Z :=
   let kind := zn s 0 in
   match parse_threads (skipn 7 s) with
   | (pre, ths, sch) =>
       let sched := map (decode_entry (length ths)) sch in
-      if kind =? 0 then
-        run_machine (tb_prog (zn s 1 * SCALE)) (fun m => [m LTok / SCALE; 0])
-                    (tb_mem (zn s 2)) (map tb_decode pre) (map (map tb_decode) ths) sched
+      if (kind =? 0) || (kind =? 2) then
+        let maxt := zn s 1 in
+        let initial := if (kind =? 2) && (zn s 3 =? 1) then maxt else zn s 2 in
+        run_machine (tb_new_prog maxt) (fun m => [m LTok / SCALE; 0])
+                    (tb_new_mem maxt initial) (map tb_decode pre) (map (map tb_decode) ths) sched
       else
         let b := ab_cfg (zn s 1) (zn s 2) (zn s 3) (zn s 4) in
-        run_machine (ab_prog b (dec_q (zn s 5) (zn s 6))) (fun m => [m LTok; m LLim])
-                    (ab_mem b) (map ab_decode pre) (map (map ab_decode) ths) sched
+        if kind =? 3 then
+          run_machine (ab_prog b (dec_q (zn s 5) (zn s 6))) (fun m => [m LTok; 0])
+                      (ab_mem b) (map abd_decode pre) (map (map abd_decode) ths) sched
+        else
+          run_machine (ab_prog b (dec_q (zn s 5) (zn s 6))) (fun m => [m LTok; m LLim])
+                      (ab_mem b) (map ab_decode pre) (map (map ab_decode) ths) sched
   end.
